@@ -184,8 +184,14 @@ class Prop(PropBase):
         else:
             reqs = [[None, k] for k in rng.sample(NAMES, rng.choice([1, 2, 3]))]
         ops = self.gen_ops(rng, reqs, nops, okmap=okmap)
-        return {'kind': 'seq', 'target': target, 'nc': rng.random() < 0.2, 'progs': [ops],
+        case = {'kind': 'seq', 'target': target, 'nc': rng.random() < 0.2, 'progs': [ops],
                 'sched': [0] * (10 * nops + 5), 'complete': True}
+        if target == 'loadercache' and rng.random() < 0.7:
+            # one of the names is the configured default loader; some of its look-ups are implicit
+            case['default'] = rng.choice(reqs)[1]
+            ngets = sum(1 for op in ops if op[0] == 'get')
+            case['implicit'] = [k for k in range(ngets) if rng.random() < 0.5]
+        return case
 
     # ------------------------------------------------------------------ implementation
     def run_impl(self, case):
